@@ -112,6 +112,24 @@ func c14Fixture() cases.ScanCase {
 	}}
 }
 
+// c14GroupConfig: refgroups for the equivalence --refgroup G = --include @G (gitconfig through the environment).
+func c14GroupConfig() []string {
+	kv := [][2]string{
+		{"refgroup.tags.foo.includeRegexp", ".*foo.*"},     // child of a predefined group, reaching outside refs/tags
+		{"refgroup.mine.include", "refs/heads"},            // parent with rules
+		{"refgroup.mine.sub.include", "refs"},              // child broader than its parent
+		{"refgroup.mine.sub.deep.include", "refs/remotes"}, // grandchild outside its grandparent
+		{"refgroup.loose.a.include", "refs/heads/foo"},     // rule-less parent "loose"
+		{"refgroup.loose.b.include", "refs/tags"},
+		{"refgroup.branches.exclude", "refs/heads/foo"}, // predefined group augmented
+	}
+	env := []string{fmt.Sprintf("GIT_CONFIG_COUNT=%d", len(kv))}
+	for i, p := range kv {
+		env = append(env, fmt.Sprintf("GIT_CONFIG_KEY_%d=%s", i, p[0]), fmt.Sprintf("GIT_CONFIG_VALUE_%d=%s", i, p[1]))
+	}
+	return env
+}
+
 type c14Run struct {
 	Exit     int
 	Stdout   string
@@ -359,17 +377,34 @@ func checkC14(c *Ctx) {
 		{{"--no-tags", "-v"}, {"--exclude", "refs/tags", "-v"}},
 		{{"--names=sha1"}, {"--names=hash"}},
 	}
+	// the same equivalences for refgroups defined in gitconfig: nested groups whose own rules reach
+	// outside what their ancestors accept, rule-less parents, a predefined group augmented from gitconfig
+	groupCfg := c14GroupConfig()
+	type eqCase struct {
+		a, b []string
+		cfg  []string
+	}
+	var eqs []eqCase
 	for _, p := range eq {
-		a := env.c14Exec(repoDir, dir, append([]string{"--no-progress"}, p[0]...), nil)
-		b := env.c14Exec(repoDir, dir, append([]string{"--no-progress"}, p[1]...), nil)
-		c.CountEval(2)
-		c.Distinct(fmt.Sprint("eq", p))
-		if a.Exit != 0 || b.Exit != 0 || a.Stdout != b.Stdout {
-			c.AddViolation(Violation{Predicate: "equivalent_spellings_differ", Spec: "Cli (documented equivalences)", Kind: "cli14eq",
-				Input: map[string]interface{}{"a": p[0], "b": p[1]}, Observed: map[string]interface{}{"exit_a": a.Exit, "exit_b": b.Exit, "stderr": tail(a.Stderr+b.Stderr, 4)}})
+		eqs = append(eqs, eqCase{p[0], p[1], nil})
+	}
+	for _, g := range []string{"tags.foo", "mine", "mine.sub", "mine.sub.deep", "loose", "loose.a", "branches", "tags"} {
+		for _, tail := range [][]string{{"-v"}, {"--json", "--json-version=2"}, {"-v", "--exclude", "refs/heads/foo"}, {"-v", "--tags"}} {
+			eqs = append(eqs, eqCase{append([]string{"--refgroup", g}, tail...), append([]string{"--include", "@" + g}, tail...), groupCfg},
+				eqCase{append([]string{"--refgroup=" + g}, tail...), append([]string{"--include=@" + g}, tail...), groupCfg})
 		}
 	}
-	c.Note("%d pairs of documented equivalent spellings compared", len(eq))
+	for _, p := range eqs {
+		a := env.c14Exec(repoDir, dir, append([]string{"--no-progress"}, p.a...), p.cfg)
+		b := env.c14Exec(repoDir, dir, append([]string{"--no-progress"}, p.b...), p.cfg)
+		c.CountEval(2)
+		c.Distinct(fmt.Sprint("eq", p.a, p.b, len(p.cfg)))
+		if a.Exit != 0 || b.Exit != 0 || a.Stdout != b.Stdout {
+			c.AddViolation(Violation{Predicate: "equivalent_spellings_differ", Spec: "Cli (documented equivalences)", Kind: "cli14eq",
+				Input: map[string]interface{}{"a": p.a, "b": p.b, "groups": len(p.cfg) > 0}, Observed: map[string]interface{}{"exit_a": a.Exit, "exit_b": b.Exit, "stderr": tail(a.Stderr+b.Stderr, 4)}})
+		}
+	}
+	c.Note("%d pairs of documented equivalent spellings compared", len(eqs))
 
 	// a gitconfig value has exactly the effect of the same string given to the option: both accepted with
 	// identical output, or both rejected (whatever the string: valid, invalid, empty, padded with blanks)
@@ -411,6 +446,7 @@ func replayC14(c *Ctx, raw json.RawMessage) bool {
 			Scenario cliScn   `json:"scenario"`
 			A        []string `json:"a"`
 			B        []string `json:"b"`
+			Groups   bool     `json:"groups"`
 			Family   string   `json:"family"`
 			Value    string   `json:"value"`
 		} `json:"input"`
@@ -428,8 +464,12 @@ func replayC14(c *Ctx, raw json.RawMessage) bool {
 		Infra("c14 fixture: %v", err)
 	}
 	if rp.Kind == "cli14eq" {
-		a := env.c14Exec(repoDir, dir, append([]string{"--no-progress"}, rp.Input.A...), nil)
-		b := env.c14Exec(repoDir, dir, append([]string{"--no-progress"}, rp.Input.B...), nil)
+		var cfg []string
+		if rp.Input.Groups {
+			cfg = c14GroupConfig()
+		}
+		a := env.c14Exec(repoDir, dir, append([]string{"--no-progress"}, rp.Input.A...), cfg)
+		b := env.c14Exec(repoDir, dir, append([]string{"--no-progress"}, rp.Input.B...), cfg)
 		return a.Exit != 0 || b.Exit != 0 || a.Stdout != b.Stdout
 	}
 	if rp.Kind == "cli14raw" {
